@@ -11,7 +11,7 @@
 
 extern struct cmi_hashheap *cmi_verif_event_queue(void);
 
-#define MAXP 44
+#define MAXP 200
 #define MAXO 2
 #define MAXLED 4096
 #define MAXEV 64
@@ -35,7 +35,7 @@ static const char *const ledname[] = { "interrupt", "timer", "hold-timer", "pree
 enum { LS_DEAD, LS_LIVE, LS_MAYBE };
 struct led { int tgt, kind, obj, state; int64_t val; double t; uint64_t seq, handle; };
 
-enum predkind { PR_FLAG, PR_RESFREE, PR_POOLAVAIL, PR_BUFGE, PR_BUFLE, PR_OQGE, PR_PQGE };
+enum predkind { PR_FLAG, PR_RESFREE, PR_POOLAVAIL, PR_BUFGE, PR_BUFLE, PR_OQGE, PR_PQGE, PR_OQLE, PR_PQLE, PR_POOLBUSY };
 struct pred { int kind, obj; uint64_t n; int cv; };
 
 enum route { RT_NONE, RT_RETURN, RT_EXIT, RT_STOP, RT_STOPSELF };
@@ -52,6 +52,7 @@ struct call {
     uint64_t first_arr; double first_et;   /* arrival number / entry time of its first waiting-list entry */
     bool granted_flag;
     bool obs_changed;       /* conditions: the set of observed guards changed while waiting */
+    int dkind;              /* guard waits with an own demand: 0 "amount units free at once", 1 "user flag <amount> is up" */
 };
 
 struct P {
